@@ -50,6 +50,11 @@ package federation
 //@   calls append#*: set n = n + 1
 //@   loop 1: invariant n == $i && len(tokens) == n
 //@   ensures result1 == nil ==> len(result0) == n
+//@   # the outgoing list is built in storage of its own: the caller's credentials
+//@   # (shared by all remotes of a fan-out, and by later calls for the same
+//@   # request context) are never overwritten with tokens salted for one remote
+//@   modifies fresh(mem:string) except(mem:string)
+//@   ensures result1 == nil && len(result0) > 0 ==> arr(result0) != arr(incoming.Tokens)
 
 // ------------------------------------------------------------------- C18
 //@ iface backend.CollectionGet
@@ -113,6 +118,11 @@ package federation
 //@   calls fn#1: requires (opts.BypassFederation || opts.ForwardedFor != "") && $1 == conn.cluster.ClusterID && $2 == conn.local
 //@   calls fn#2: requires matchAllFilters == nil && $1 == conn.cluster.ClusterID && $2 == conn.local
 //@   calls fn#3: requires len(todoByRemote) == 1 && has(todoByRemote, conn.cluster.ClusterID) && $1 == conn.cluster.ClusterID && $2 == conn.local
+//@   # nUUIDs (compared with the page size limit) counts every requested UUID
+//@   # that can match at all - all clusters together, one by one
+//@   ghost n0 int = 0
+//@   at assign uuid#1: set n0 = nUUIDs
+//@   at loop 5 back: assert (len(uuid) == 27 ==> nUUIDs == n0 + 1) && (len(uuid) != 27 ==> nUUIDs == n0)
 //@   calls Conn.splitListRequest$1#1: requires !cannotSplit && opts.Count == "none" && opts.Limit < 0 && opts.Offset == 0 && len(opts.Order) == 0 && nUUIDs <= max
 
 // Per-cluster worker: the backend is the local one for the local cluster id,
@@ -219,7 +229,7 @@ package federation
 // that salts for that same id (never with the caller's tokens as they are, and
 // never with a provider made for another cluster), and is stored under id;
 // the local cluster and non-proxy remotes get no remote connection.
-//@ func New property C19 safety -nil
+//@ func New property C19,C20 safety -nil
 //@   ghost pid string = ""
 //@   calls saltedTokenProvider#1: requires $1 == id && remote.Proxy && id != cluster.ClusterID
 //@   calls saltedTokenProvider#1: set pid = $1
